@@ -16,9 +16,15 @@ import (
 // derived from the current policies and pods, whatever existed before; synchronising again changes nothing;
 // foreign chains / rules / sets are never modified; no batch references a set or chain that does not exist.
 
-type vSyncedInformer struct{ cache.SharedIndexInformer }
+// vSyncedInformer: the pod informer. galaxy starts its pod informer factory when a synchronisation finds the first
+// network policy; from then on (for the life of the process) it is synced, before that it is not (syncPods then
+// lists the node's pods from the API server).
+type vSyncedInformer struct {
+	cache.SharedIndexInformer
+	c *vCluster
+}
 
-func (vSyncedInformer) HasSynced() bool { return true }
+func (i vSyncedInformer) HasSynced() bool { return i.c == nil || i.c.informerStarted }
 
 func (w *vWorld) filterDump() string {
 	_, rules := (&vStrictIPT{in: w.ipt}).chainsAndRules()
@@ -267,6 +273,9 @@ func VerifC15_q_syncConverges() {
 	// its address (evicted: an update event)
 	evicted := before.db == 1 && after.db == 2 && nondetBool()
 	gone := w.c.pods
+	if missed {
+		w.restartManager() // galaxy was down: the next synchronisation is that of a new process
+	}
 	w.setState(after)
 	for _, p := range gone {
 		if p.Name != "db" || missed {
